@@ -9,10 +9,11 @@ import torch
 from jaxtyping import Float
 from torch import Tensor
 
-from linear_operator.operators._linear_operator import LinearOperator
+from linear_operator.operators._linear_operator import IndexType, LinearOperator
 from linear_operator.operators.root_linear_operator import RootLinearOperator
 from linear_operator.operators.triangular_linear_operator import _TriangularLinearOperatorBase, TriangularLinearOperator
 
+from linear_operator.utils.getitem import _is_noop_index
 from linear_operator.utils.memoize import cached
 
 
@@ -63,6 +64,12 @@ class CholLinearOperator(RootLinearOperator):
     def _diagonal(self: Float[LinearOperator, "... M N"]) -> Float[torch.Tensor, "... N"]:
         # TODO: Can we be smarter here?
         return (self.root.to_dense() ** 2).sum(-1)
+
+    def _getitem(self, row_index: IndexType, col_index: IndexType, *batch_indices: IndexType) -> LinearOperator:
+        if _is_noop_index(row_index) and _is_noop_index(col_index):
+            return self.__class__(self.root._getitem(row_index, col_index, *batch_indices), upper=self.upper)
+        # Rows of a triangular factor are not triangular: a sub-matrix of L L^T is a root (not a Cholesky) operator
+        return RootLinearOperator(self.root)._getitem(row_index, col_index, *batch_indices)
 
     def _solve(
         self: Float[LinearOperator, "... N N"],
